@@ -68,6 +68,16 @@ Fixpoint rows_agree (mag : Q) (dec : list bool) (l : list (vec3 Q * nat)) (pts :
   | _, _, _, _ => false
   end.
 
+(* the harness may only call a draw undecided when u * T really is near a cumulative weight (within 2e-8 T, twice the
+   harness's own band, so that binary64 vs exact arithmetic cannot matter): a harness bug cannot mask decided draws *)
+Definition near_threshold (ws : list Q) (u : Q) : bool :=
+  let T := total_weight QOps ws in
+  let x := u * T in
+  existsb (fun c => Qle_bool (Qabs (x - c)) ((2 # 100000000) * Qabs T)) (cumsum QOps ws).
+Definition dec_honest (ts : list (tri Q)) (weights : option (list Q)) (us : list Q) (dec : list bool) : bool :=
+  let ws := match weights with Some w => w | None => surface_areas QOps ts end in
+  all2 (fun d u => d || near_threshold ws u) dec us.
+
 Definition check_case (c : case) : bool :=
   match c with
   | CNormals ts raw unit areas =>
@@ -81,11 +91,14 @@ Definition check_case (c : case) : bool :=
   | CSameSide rows obs =>
       bool_list_eqb (map (fun r => same_side QOps (r_a r) (r_b r) (r_c r) (r_d r)) rows) obs
   | CSample dec ts weights us abs obs =>
+      dec_honest ts weights us dec &&
       match sample QOps ts weights us abs, obs with
       | Ok l, Ok (pts, fis) => rows_agree (tris_pmag ts) dec l pts fis
       | Raise e, Raise e' => exn_eqb e e'
-      (* success on one side only is judged when every draw is decided *)
-      | _, _ => negb (forallb (fun d => d) dec)
+      (* an index past the end on one side only (the draw sat on the last threshold) is forgiven when some draw is
+         undecided; any other one-sided exception is a disagreement whatever `dec` says *)
+      | Ok _, Raise IndexError | Raise IndexError, Ok _ => negb (forallb (fun d => d) dec)
+      | _, _ => false
       end
   | CQuads qs tris mapping =>
       all2 face_eqb (quads_to_tris qs) tris && all2 pair_eqb (quads_mapping qs) mapping
